@@ -354,6 +354,15 @@ func caseResult(b *ssa.BasicBlock, val ssa.Value, extra ...any) string {
 	res := stripIface(r.Results[0])
 	al, ok := res.(*ssa.Alloc)
 	if !ok {
+		// built by a constructor helper (newInt(v)): the helper's own result, with its parameter standing for the argument
+		if hc, isCall := res.(*ssa.Call); isCall && hc.Call.StaticCallee() != nil && hc.Call.StaticCallee().Blocks != nil && len(hc.Call.StaticCallee().Blocks) == 1 {
+			h := hc.Call.StaticCallee()
+			for i, a := range hc.Call.Args {
+				if a == val && i < len(h.Params) {
+					return caseResult(h.Blocks[0], h.Params[i])
+				}
+			}
+		}
 		return "? " + res.Type().String()
 	}
 	t := typeStr(al.Type())
